@@ -326,7 +326,7 @@ theorem partial_prefix_phases_partial (c : Cfg) (o : POpts) (hf : c.feats.format
     exact ⟨e3, by have : ip.byte.index ≤ ip.byte.slc.length := e4
                   rw [hs] at this; exact this, e7⟩
   · intro m fp h
-    obtain ⟨e1, e2, e3, _, e5⟩ := fractionPhase_trunc hf hd o b m fp hv h
+    obtain ⟨e1, e2, e3, _, _, _, e5⟩ := fractionPhase_trunc hf hd o b m fp hv h
     have hs : fp.byte.slc = b.slc := by rw [e1]; rfl
     exact ⟨e2, by have : fp.byte.index ≤ fp.byte.slc.length := e3
                   rw [hs] at this; exact this, e5⟩
